@@ -240,6 +240,19 @@ class Engine(object):
         """Explore all paths of entry(args).  Returns list of Leaf."""
         F = self.m.function(entry)
         st = state if state is not None else self.initial_state()
+        if state is None and self.m.global_ctors:
+            # run the static constructors first (concrete, single path)
+            for name in self.m.global_ctors:
+                self.push_call(st, self.m.function(name), [], -1)
+                try:
+                    self._run_state(st)
+                except _PathEnd as pe:
+                    lf = pe.args[0]
+                    if lf.status != 'ok':
+                        raise EngineError('static constructor %s did not complete: %s' % (name, lf.status))
+                    st.steps = lf.steps
+                except _Fork:
+                    raise EngineError('static constructor %s forks' % name)
         self.push_call(st, F, list(args), -1)
         return self.explore(st)
 
